@@ -14,7 +14,7 @@ CONSTANTS N, MaxOut, KindVecs
 
 Body(c, ids) == [c |-> c, ids |-> ids]
 Blank == [name |-> <<>>, kind |-> "unit", long |-> <<>>, islong |-> FALSE, body |-> Body(1, <<>>), props |-> <<>>,
-          doc |-> "", cat |-> <<>>, disp |-> ""]
+          doc |-> "", cat |-> <<>>, disp |-> "", sym |-> <<>>]
 NodeName(i) == <<96 + i>>          \* a, b, c, d, e
 
 RECURSIVE SetToSeq(_)
